@@ -33,7 +33,7 @@ def plan(tier):
 def cases(draw):
     k = draw(st.integers(1, 4))
     n = draw(st.integers(k, 6))
-    seg = draw(st.sampled_from([k * 8, k * 16, 64, 100, 128]))
+    seg = draw(st.sampled_from([k * 8, k * 16, 64, 100, 128, 128, 1024, 4096]))     # (multi-KiB shares keep several read requests in flight per share)
     nseg = draw(st.integers(1, 6))
     size = max(56, seg * nseg - draw(st.integers(0, max(0, seg - 1))))
     which = st.one_of(st.just("all"), st.integers(0, 5), st.lists(st.integers(0, 5), min_size=1, max_size=4, unique=True))
